@@ -24,7 +24,8 @@ import time
 ROOT = os.path.dirname(os.path.abspath(__file__))
 REPO = os.environ.get("VERIF_REPO", "/repo")
 LEAN = os.path.join(ROOT, "lean")
-BIN = os.path.join(ROOT, ".bin")
+MUTANT = os.environ.get("VERIF_MUTANT_OVERLAY") is not None     # development runs against a changed source file
+BIN = os.path.join(ROOT, ".bin-mut" if MUTANT else ".bin")     # ... never share binaries with the registered checks
 WORK = os.path.join(ROOT, ".work")
 GOENV = dict(os.environ, GOFLAGS="-mod=mod", GOPROXY="off", GOSUMDB="off", GOTOOLCHAIN="local",
              CGO_ENABLED=os.environ.get("CGO_ENABLED", "1"))
@@ -202,7 +203,7 @@ def write_overlay(extra=None):
     # without touching /repo, e.g. VERIF_MUTANT_OVERLAY='{"/repo/pkg/x/y.go": "/tmp/mut/y.go"}'
     if os.environ.get("VERIF_MUTANT_OVERLAY"):
         ov.update(json.loads(os.environ["VERIF_MUTANT_OVERLAY"]))
-    path = os.path.join(ROOT, "harness", "overlay.json")
+    path = os.path.join(ROOT, "harness", "overlay-mut.json" if MUTANT else "overlay.json")
     new = json.dumps({"Replace": ov}, indent=1, sort_keys=True)
     if not os.path.exists(path) or open(path).read() != new:
         open(path, "w").write(new)
